@@ -4,7 +4,7 @@
    79488b4 (IS NOT TRUE), 596613e (info NOT IN) applied.  `pre4`, `prequote`, `legacy` = the code before
    the last four / five / all of them: statements about those are the record of the repaired defects. *)
 From Coq Require Import ZArith List Bool String Permutation Sorted.
-From PAFC10 Require Import Model Proofs Proofs2 Proofs3 Proofs4 Proofs5 Proofs6 Proofs7 Proofs8 Witness Witness2.
+From PAFC10 Require Import Model Proofs Proofs2 Proofs3 Proofs4 Proofs5 Proofs6 Proofs7 Proofs8 Proofs9 Witness Witness2.
 Import ListNotations.
 
 (* ===== selection ===== *)
@@ -162,6 +162,29 @@ Theorem C10_grid_compose_refuted :
       Ok (ordered (spec_keys [] ops) (spec_sel db db ops), spec_keys [] ops).
 Proof. exact grid_compose_refuted. Qed.
 
+(* the proposed repair of slicing (run_gops_s, proposed_fixes/C10-slice-positional.diff): a sliced aggregator that is
+   queried / ordered / navigated further is first replaced by the ids of its fits; re-selected by id and ordered by the
+   same keys (the id among them) these are exactly the fits of the slice in the same order, so the later operation
+   acts on the slice as on a Python list *)
+Theorem C10_slicefix_freeze_exact : forall db st,
+  NoDup (map fid db) -> keys_total (g_keys st) = true ->
+  g_fits current db (freeze current db st) = g_fits current db st.
+Proof. exact freeze_exact. Qed.
+
+(* ... and a slice with a step > 1 or a negative step returns the Python list slice of the current fits (same
+   repair: IdsQuery of self.fits[item], every order key flipped for a negative step) *)
+Theorem C10_slicefix_step_partial : forall db st start stop stp st',
+  NoDup (map fid db) -> keys_total (g_keys st) = true -> (1 < stp)%Z ->
+  gop_step_s current false db st (GSlice start stop (Some stp)) = Ok st' ->
+  g_fits current db st' = py_slice_step (g_fits current db st) start stop (Some stp).
+Proof. exact stepped_pos_exact. Qed.
+
+Theorem C10_slicefix_negative_step_partial : forall db st start stop stp st',
+  NoDup (map fid db) -> keys_total (g_keys st) = true -> (stp < 0)%Z ->
+  gop_step_s current false db st (GSlice start stop (Some stp)) = Ok st' ->
+  g_fits current db st' = py_slice_step (g_fits current db st) start stop (Some stp).
+Proof. exact stepped_neg_exact. Qed.
+
 (* every chain of [a:b] slices, with or without child fits, equals Python list slicing *)
 Theorem C10_slice_exact : forall top_only L slices,
   run_slices current top_only L slices = spec_slices top_only L slices.
@@ -232,3 +255,5 @@ Print Assumptions C10_order_unique.
 Print Assumptions C10_order_nulls.
 Print Assumptions C10_grid_pipeline_partial.
 Print Assumptions C10_best_exists.
+Print Assumptions C10_slicefix_freeze_exact.
+Print Assumptions C10_slicefix_negative_step_partial.
